@@ -202,6 +202,24 @@ func (s *srvSession) start(srv *signaling_rpc_server.Server, sendInit bool) {
 	}()
 }
 
+// startRegistered starts the handler (with Init) and waits until the relay has registered the call as the
+// current one of its ordered pair, so that "newer" and "older" calls are well defined for the oracles. old is
+// the call of the same ordered pair that is being replaced (nil if none). Registration is read through the
+// verif-tagged VerifSessionSide export; a replaced call must also have returned (that is what the replacement
+// does to it; if it never returns the wait gives up and the oracle reports the call that is still running).
+// ok=false: the call did not register within the (generous) bound - the case is not decidable.
+func (s *srvSession) startRegistered(srv *signaling_rpc_server.Server, old *srvSession) (ok bool) {
+	s.start(srv, true)
+	src, dst := gen.PeerID(s.who).String(), gen.PeerID(s.dst).String()
+	if !waitFor(8*time.Second, func() bool { return srv.VerifSessionSide(src, dst) }) {
+		return false
+	}
+	if old != nil {
+		waitFor(3*time.Second, func() bool { e, _ := old.ended(); return e })
+	}
+	return true
+}
+
 // ended reports whether the handler returned, and its error.
 func (s *srvSession) ended() (bool, error) {
 	select {
@@ -279,6 +297,18 @@ func (s *srvListen) start(srv *signaling_rpc_server.Server) {
 		close(s.done)
 	}()
 }
+// startRegistered starts the Listen handler and waits until the relay has registered it (VerifListenState:
+// listening, and a new nonce if a call was registered before).
+func (s *srvListen) startRegistered(srv *signaling_rpc_server.Server) (ok bool) {
+	id := gen.PeerID(s.who).String()
+	pl, pn := srv.VerifListenState(id)
+	s.start(srv)
+	return waitFor(8*time.Second, func() bool {
+		l, n := srv.VerifListenState(id)
+		return l && (!pl || n != pn)
+	})
+}
+
 func (s *srvListen) ended() (bool, error) {
 	select {
 	case <-s.done:
